@@ -178,11 +178,137 @@ def decay_rule(F, R):
                     "becomes eligible again (or penalties vanish at once)", F.loc(SCORE))
 
 
+UPDATE = "scion_stack::path::manager::reliability::ReliabilityScore::update"
+
+
+def update_rule(F, R):
+    """FLOW-update: ReliabilityScore::update(penalty, now) stores score := clamp(self.score(now).value() + penalty.value())
+    and last_updated := now — the very `now` the decayed score was taken at.  The stored pair (score, last_updated) is the
+    state FLOW-decay reads: a reference time older than `now` makes the next read decay the fresh penalty by the age of
+    the entry (a failure reported long after the fetch no longer moves the ranking); a newer one freezes old penalties."""
+    b = F.body(UPDATE)
+    if b is None:
+        R.anchor_missing(UPDATE)
+        return
+    R.fn(UPDATE)
+    stores = {}
+    for bb in sorted(b.live_blocks()):
+        for st in b.stmts(bb):
+            if st[0] == "=" and st[1][0] == 1 and len(st[1][1]) == 2 and st[1][1][0] == "*" and st[1][1][1][0] == "f" and st[2][0] == "use":
+                stores.setdefault(st[1][1][1][2], []).append(strip_sites(b.origin(st[2][1])))
+    lu = stores.get("last_updated", [])
+    ok_lu = len(lu) == 1 and lu[0] == ("param", 3)
+    R.ob("FLOW-update", "update(): last_updated := now (the parameter itself, one store)", ok_lu, True,
+         {"rule": "FLOW-update", "stores": [fmt(x, 160) for x in lu]})
+    if not ok_lu:
+        R.violation("FLOW-update", UPDATE + "/last_updated",
+                    "ReliabilityScore::update stores last_updated := %s instead of the `now` the penalty was applied at: the next "
+                    "score(now') decays the fresh penalty by the wrong age, so a failure reported long after the path was fetched "
+                    "does not move it down the ranking" % ", ".join(fmt(x, 120) for x in lu), F.loc(UPDATE))
+    sc = stores.get("score", [])
+    ok_sc = False
+    if len(sc) == 1:
+        t = sc[0]
+        adds = [x for x in walk(t) if x[0] == "bin" and x[1] == "Add"]
+        for a in adds:
+            tl, tr = tokens(a[2]), tokens(a[3])
+            for (x, y, tx, ty) in ((a[2], a[3], tl, tr), (a[3], a[2], tr, tl)):
+                sc_calls = [n for n in walk(x) if n[0] == "call" and n[1].endswith("ReliabilityScore::score")]
+                if sc_calls and all(strip_sites(n[2][1]) == ("param", 3) for n in sc_calls) and "param:2" in ty and "param:3" not in ty \
+                        and not any(n[0] == "call" and n[1].endswith("ReliabilityScore::score") for n in walk(y)):
+                    ok_sc = True
+    R.ob("FLOW-update", "update(): score := clamp(self.score(now) + penalty)", ok_sc, True, {"rule": "FLOW-update", "stores": [fmt(x, 200) for x in sc]})
+    if not ok_sc:
+        R.violation("FLOW-update", UPDATE + "/score", "ReliabilityScore::update no longer stores decayed(self, now) + penalty: %s" % ", ".join(fmt(x, 160) for x in sc), F.loc(UPDATE))
+
+
+MPC = "scion_stack::path::manager::issues::IssueMarkerTarget::matches_path_checked"
+
+
+def _const_true(b):
+    """every write to the return place is the constant `true`"""
+    n = 0
+    for bb in sorted(b.live_blocks()):
+        for st in b.stmts(bb):
+            if st[0] == "=" and st[1][0] == 0:
+                n += 1
+                if not (st[2][0] == "use" and st[2][1][0] == "k" and st[2][1][1].get("ty") == "bool" and st[2][1][1].get("v") == 1):
+                    return False
+        t = b.term(bb)
+        if t[0] == "call" and t[3] and t[3][0] == 0:
+            return False
+    return n > 0
+
+
+def _reads_hops(F, p, depth=2, seen=None):
+    seen = seen if seen is not None else set()
+    if p in seen or depth < 0:
+        return False
+    seen.add(p)
+    b = F.body(p)
+    if b is None:
+        return False
+    for bb in sorted(b.live_blocks()):
+        for st in b.stmts(bb):
+            if "'interfaces'" in str(st) or "'metadata'" in str(st):
+                return True
+    for c in b.calls:
+        nm = c.callee or ""
+        if nm.endswith("ScionPath::metadata") or nm.endswith("::interfaces") or "PathInterface" in nm:
+            return True
+        if nm.startswith("scion_stack::") and _reads_hops(F, nm, depth - 1, seen):
+            return True
+    return False
+
+
+def precheck_rule(F, R):
+    """GS-precheck: `matches_path_checked(.., might_include_check)` returns false for an Interface target as soon as the
+    pre-check says no, before the interface list is scanned.  The transit ASes of a path are recorded only in
+    `metadata.interfaces`; a stateless pre-check (fn item or capture-less closure) that can answer false without reading
+    them decides from the target and the path's endpoints alone and necessarily skips some path that crosses the reported
+    AS in the middle — the report then matches nothing, no penalty is applied and the active path is kept.  Decided:
+    constant-true pre-checks (accepted), stateless pre-checks that never read the hop list (violation).  Pre-checks that
+    read the hop list or capture state are listed as not decided."""
+    sites = [(p, c) for (p, c) in T.call_sites(F, lambda n: n == MPC, crates=["scion_stack"])]
+    R.floor("GS-precheck", len(sites), 1, "matches_path_checked call sites")
+    for (p, c) in sites:
+        pb = F.body(p)
+        R.fn(p)
+        o = strip_sites(pb.origin(c.args[3]))
+        target = None
+        caps = None
+        if o[0] == "agg" and o[1][0] == "closure":
+            target, caps = o[1][1], len(o[2])
+        elif o[0] == "fnref":
+            target, caps = o[2] or o[1], 0
+        if target is None or F.body(target) is None or caps:
+            R.ob("GS-precheck", "pre-check passed by %s: %s — stateful or unresolved, not decided" % (short(p), fmt(o, 100)), True, False)
+            continue
+        tb = F.body(target)
+        R.fn(target)
+        if _const_true(tb):
+            R.ob("GS-precheck", "pre-check %s is the constant true (every path reaches the interface scan)" % short(target), True, True,
+                 {"rule": "GS-precheck", "site": p, "precheck": target, "verdict": "constant true"})
+            continue
+        if _reads_hops(F, target):
+            R.ob("GS-precheck", "pre-check %s reads the hop list — soundness not decided" % short(target), True, False,
+                 {"rule": "GS-precheck", "site": p, "precheck": target, "verdict": "reads hops, not decided"})
+            continue
+        R.ob("GS-precheck", "pre-check %s can answer false without reading the hop list" % short(target), False, True,
+             {"rule": "GS-precheck", "site": p, "precheck": target, "verdict": "violation"})
+        R.violation("GS-precheck", p + "/precheck",
+                    "%s passes %s as might_include_check: it can answer false without reading metadata.interfaces, the only record of "
+                    "a path's transit ASes — an interface-down / connectivity-down report from a transit AS is then matched against "
+                    "no path (no penalty, no switch-over)" % (short(p), short(target)), c.span.loc)
+
+
 def run(F, R, tier, cfg):
     penalty_match_rule(F, R)
     affected_flag_rule(F, R)
     reeval_rule(F, R)
     decay_rule(F, R)
+    update_rule(F, R)
+    precheck_rule(F, R)
     target_flow_rule(F, R)
     penalty_sign_rule(F, R)
     burst_combine_rule(F, R)
